@@ -8,7 +8,7 @@ fn main() {
     let outdir = Path::new(args.get(0).expect("usage: gencoq OUTDIR [item...]"));
     std::fs::create_dir_all(outdir).unwrap();
     let want: Vec<&String> = args.iter().skip(1).collect();
-    let items: Vec<(&str, fn() -> GenResult)> = vec![("OpTableGen", optable::generate), ("GenerationGen", generation::generate), ("ClonerGen", cloner::generate), ("InstrGen", instr::generate), ("InstrCodecGen", instr_codec::generate), ("AllocGen", alloc::generate), ("SpanGen", span::generate), ("PrecGen", prec::generate), ("MapGen", glu_std::generate_map), ("ListGen", glu_std::generate_list), ("PrimTableGen", primtable::generate)];
+    let items: Vec<(&str, fn() -> GenResult)> = vec![("OpTableGen", optable::generate), ("LayoutTablesGen", layout_tables::generate), ("GenerationGen", generation::generate), ("ClonerGen", cloner::generate), ("InstrGen", instr::generate), ("InstrCodecGen", instr_codec::generate), ("AllocGen", alloc::generate), ("SpanGen", span::generate), ("PrecGen", prec::generate), ("MapGen", glu_std::generate_map), ("ListGen", glu_std::generate_list), ("PrimTableGen", primtable::generate), ("StackResetGen", stackreset::generate)];
     let mut failed = false;
     for (name, f) in items {
         if !want.is_empty() && !want.iter().any(|w| w.as_str() == name) {
